@@ -670,6 +670,7 @@ func runC05(c *core.Ctx) core.Meta {
 	checkParallelEngineFlag(c)
 	checkEngineLeavesOnlyWithoutRerun(c)
 	checkNoCompactionWhileRanging(c, "R05.17", 5, NewPkgInfo(c, cuPkg))
+	checkProgressOnlyAfterWork(c, "R05.18", 3, NewPkgInfo(c, pmcPkg))
 	return core.Meta{Level: "other",
 		Explanation: "Structural sources of host-dependent order and values in the code that runs inside a simulation (driver, emulator, decoder, kernels, protocol, sampling, all timing components, timing configuration, NVIDIA model): every range over a map is classified as order-insensitive or justified by a one-line exception (re-validated where possible), host-dependent value sources are enumerated against an exception table whose sinks are checked to have no reader, goroutines/selects and unstable sorts are inventoried, and the simulation goroutine is woken only by a call that blocks until the queue is empty.",
 		NotDecided:  "equality of whole runs across host schedules; akita's engines (outside /repo); the parallel engine; floating-point summation order inside kernels",
